@@ -128,6 +128,7 @@ type c19LeafSpec struct {
 	signer    *c19CA
 	selfCA    bool // self-signed leaf that also claims to be a CA
 	selfSubj  *pkix.Name
+	serial    *big.Int // nil = a fresh random serial number
 }
 
 func c19Leaf(s c19LeafSpec) (der []byte, key *ecdsa.PrivateKey) {
@@ -136,8 +137,12 @@ func c19Leaf(s c19LeafSpec) (der []byte, key *ecdsa.PrivateKey) {
 	if s.selfSubj != nil {
 		subj = *s.selfSubj
 	}
+	serial := s.serial
+	if serial == nil {
+		serial = c19Serial()
+	}
 	tmpl := &x509.Certificate{
-		SerialNumber: c19Serial(),
+		SerialNumber: serial,
 		Subject:      subj,
 		DNSNames:     s.dnsNames,
 		NotBefore:    s.notBefore,
